@@ -1,2 +1,108 @@
-//! Harnesses for property C23 (see /verif/properties.jsonl).
+//! Harnesses for property C23 (see /verif/properties.jsonl): the NTP packet decoder is total.
+//!
+//! Every harness calls the public `NtpPacket::deserialize` on a byte image and requires only
+//! that it returns (Kani's built-in checks flag every panic, failed slice index, arithmetic
+//! overflow and `unwrap` on the way). Key contexts: `NoCipher`, a client session cipher
+//! (`OracleCipher`, see common.rs) and the server's real `KeySet` with the AES-SIV primitives
+//! stubbed by the oracle model (the real `KeySet::get`/`decode_cookie` run).
+use crate::common::*;
 use crate::stubs;
+use ntp_proto::{CipherProvider, NoCipher, NtpPacket};
+
+/// Unstructured input: 52 symbolic bytes, symbolic length 0..=52.
+fn unstructured<C: CipherProvider + ?Sized>(cipher: &C) {
+    let buf: [u8; 52] = kani::any();
+    let len: usize = kani::any();
+    kani::assume(len <= 52);
+    let version = (buf[0] >> 3) & 7;
+    let r = decode(&buf[..len], cipher);
+    match &r {
+        Outcome::Accepted(p, cookie) => {
+            // oracle from the wire format: nothing shorter than a header is a packet, only
+            // versions 3..5 exist, a v5 packet needs a draft identification field (28 bytes)
+            assert!(len >= 48, "accepted packets have a full header");
+            assert!(version == 3 || version == 4, "no NTPv5 packet fits into 52 bytes");
+            assert!(!*cookie, "no cookie without an NTS field");
+        }
+        Outcome::DecryptFailed(_) => assert!(len >= 56, "an NTS field needs at least 8 bytes"),
+        Outcome::Rejected => {}
+    }
+    kani::cover!(matches!(r, Outcome::Accepted(..)) && len == 48 && version == 3, "v3 header accepted");
+    kani::cover!(matches!(r, Outcome::Accepted(..)) && len == 52 && version == 4, "v4 header + crypto-NAK accepted");
+    kani::cover!(matches!(r, Outcome::Rejected) && version == 5 && len == 52, "v5 rejected");
+    kani::cover!(matches!(r, Outcome::Rejected) && len == 0, "empty rejected");
+    kani::cover!(matches!(r, Outcome::Rejected) && len == 47, "short header rejected");
+}
+
+harness! {
+    #[kani::unwind(8)]
+    fn c23_u_nocipher() {
+        unstructured(&NoCipher);
+    }
+}
+harness! {
+    #[kani::unwind(8)]
+    fn c23_u_client() {
+        symbolic_oracle();
+        unstructured(&OracleCipher);
+    }
+}
+harness! {
+    #[kani::unwind(8)]
+    #[kani::stub(<ntp_proto::verif::packet::crypto::AesSivCmac512 as ntp_proto::Cipher>::decrypt, crate::common::aes512_decrypt_stub)]
+    #[kani::stub(<ntp_proto::verif::packet::crypto::AesSivCmac256 as ntp_proto::Cipher>::decrypt, crate::common::aes256_decrypt_stub)]
+    fn c23_u_keyset() {
+        symbolic_oracle();
+        symbolic_cookie_plaintext();
+        let id_offset: u32 = kani::any();
+        let ks = real_keyset(id_offset);
+        unstructured(&ks);
+    }
+}
+
+// ------------------------------------------------------------------ probes (not registered)
+pharness! {
+    #[kani::unwind(30)]
+    fn probe_a() {
+        // any version, one field with any type, length field 4..=16 symbolic, trailer 0..=4
+        let img: Img<72, 1> = image(None, [f(Ty::Any, 4, 16)], 0, 4);
+        let r = decode(&img.buf[..img.len], &NoCipher);
+        kani::cover!(matches!(r, Outcome::Accepted(..)), "accepted");
+    }
+}
+pharness! {
+    #[kani::unwind(30)]
+    fn probe_b() {
+        // v5, draft + one field any type, concrete length 16
+        let img: Img<96, 2> = image(Some(5), [DRAFT_F, f(Ty::Any, 16, 16)], 0, 0);
+        let r = decode(&img.buf[..img.len], &NoCipher);
+        kani::cover!(matches!(r, Outcome::Accepted(..)), "accepted");
+    }
+}
+pharness! {
+    #[kani::unwind(30)]
+    fn probe_c() {
+        // v5, draft + one field any type, symbolic length 4..=20
+        let img: Img<100, 2> = image(Some(5), [DRAFT_F, f(Ty::Any, 4, 20)], 0, 0);
+        let r = decode(&img.buf[..img.len], &NoCipher);
+        kani::cover!(matches!(r, Outcome::Accepted(..)), "accepted");
+    }
+}
+pharness! {
+    #[kani::unwind(30)]
+    fn probe_d() {
+        // v4, two fields any type, concrete lengths, 20-byte MAC
+        let img: Img<120, 2> = image(Some(4), [f(Ty::Any, 16, 16), f(Ty::Any, 28, 28)], 24, 24);
+        let r = decode(&img.buf[..img.len], &NoCipher);
+        kani::cover!(matches!(r, Outcome::Accepted(..)), "accepted");
+    }
+}
+pharness! {
+    #[kani::unwind(30)]
+    fn probe_e() {
+        // v4, one field any type, symbolic length 4..=28, trailer 0..=24
+        let img: Img<104, 1> = image(Some(4), [f(Ty::Any, 4, 28)], 0, 24);
+        let r = decode(&img.buf[..img.len], &NoCipher);
+        kani::cover!(matches!(r, Outcome::Accepted(..)), "accepted");
+    }
+}
